@@ -197,7 +197,7 @@ def run(rep):
     quick = rep.tier == 'quick'
     gen = G.Gen(rng, max_depth=3, allow_std=True)
     nhist = 500 if quick else 6000
-    hist_lines, model_lines, metas = [], [], []
+    hist_lines, model_lines, pipe_lines, metas = [], [], [], []
     fresh_jobs = []   # (hist index, request index, source index, max_stack)
     for h in range(nhist):
         libs = {n: gen_lib(rng, gen) for n in LIBS}
@@ -221,6 +221,11 @@ def run(rep):
         model_lines.append('core hist 500 8000 | ' + ' | '.join(
             ['lib %s %s' % (vlib.hx('$' + n), G.to_sexp(e)) for n, e in libs.items()] +
             ['src ' + G.to_sexp(s) for s in srcs] + ['req ' + ' '.join(reqs)]))
+        # the same history with the SOURCE TEXTS of libraries and sources through the whole-pipeline model
+        # (`import "<lib>.libsonnet"` stands for the root variable `$<lib>`, as in the S-expression form)
+        pipe_lines.append('pipe hist 500 8000 | ' + ' | '.join(
+            ['lib %s %s %s' % (vlib.hx('$' + n), vlib.hx(n + '.libsonnet'), vlib.hx(G.to_jsonnet(e))) for n, e in libs.items()] +
+            ['src ' + vlib.hx(G.to_jsonnet(s)) for s in srcs] + ['req ' + ' '.join(reqs)]))
         metas.append((libs, srcs, reqs, files))
         ms = 500
         for ri, r in enumerate(reqs):
@@ -230,6 +235,12 @@ def run(rep):
                 fresh_jobs.append((h, ri, int(r.split(':')[1]), ms))
     io = vlib.impl(hist_lines)
     mo = vlib.model(model_lines)
+    import time
+    t0 = time.time()
+    po = vlib.model(pipe_lines)
+    pstat = {'histories': len(pipe_lines), 'answered': 0, 'front_unsupported': 0, 'requests_compared': 0,
+             'model_seconds': round(time.time() - t0, 2)}
+    rep.extra['pipeline'] = pstat
     # fresh-state runs: one Program per request (same library files, same limit), plus a high-limit run
     fresh_lines, fresh_big = [], []
     for h, ri, k, ms in fresh_jobs:
@@ -283,6 +294,34 @@ def run(rep):
             rep.bump('history-with-unmodelled-builtin')
         elif not mitems:
             rep.disagreement('c11m:' + line, 'model rejected the history', {'op': line, 'model_op': model_lines[h], 'model': b[:200]})
+        # pipeline model: the history on source texts (outcomes per request), against the implementation and the S-expression route
+        c = po[h]
+        if c.startswith(('lib-front', 'src-front')):
+            if ' unsupported_' in c:
+                pstat['front_unsupported'] += 1
+                rep.bump('pipe-history:unsupported')
+            else:
+                rep.disagreement('c11p:' + line, 'a generated library / source does not pass the static stages of the pipeline model',
+                                 {'op': line, 'pipe_op': pipe_lines[h], 'pipe': c[:300]})
+            continue
+        pitems = c.split(';')
+        if len(pitems) != len(items):
+            rep.disagreement('c11p:' + line, 'pipeline model rejected the history', {'op': line, 'pipe_op': pipe_lines[h], 'pipe': c[:300]})
+            continue
+        pstat['answered'] += 1
+        rep.bump('pipe-history:answered')
+        for ri, (it, pt) in enumerate(zip(items, pitems)):
+            if not reqs[ri].startswith('eval:') or pt.startswith('unsupported') or pt.startswith('gas'):
+                continue
+            pstat['requests_compared'] += 1
+            if norm_item(conv_impl_item(it)) != norm_item(pt):
+                rep.disagreement('c11p:' + line + '#%d' % ri, 'request outcome differs from the pipeline-model history (source texts)',
+                                 {'op': line, 'pipe_op': pipe_lines[h], 'request': ri, 'impl': conv_impl_item(it)[:300], 'pipe': pt[:300]})
+                break
+            if mitems and len(mitems) == len(items) and not mitems[ri].startswith(('unsupported', 'gas')) and norm_item(mitems[ri]) != norm_item(pt):
+                rep.disagreement('c11p:' + line + '#%d' % ri, 'model history via S-expressions and via source texts disagree (printer or lowering)',
+                                 {'op': line, 'pipe_op': pipe_lines[h], 'model_op': model_lines[h], 'request': ri, 'model': mitems[ri][:300], 'pipe': pt[:300]})
+                break
     # evaluating the same thunk again returns the same outcome (incl. after failures and limit changes)
     again = []
     for h in range(min(nhist, 60 if quick else 1000)):
@@ -319,4 +358,6 @@ def replay(r):
         bad |= a.split(';')[nload + rp['request']] != f.split(';')[-1]
     if 'model_op' in rp:
         print('model :', vlib.model([rp['model_op']])[0])
+    if 'pipe_op' in rp:
+        print('pipe  :', vlib.model([rp['pipe_op']])[0])
     return 1 if bad else 0
